@@ -212,6 +212,17 @@ prop("C16", "A follower's cache is a faithful copy of the leader's stream", "exp
      "non-trivial = distinct case with a non-empty follower pre-state and an interruption after >= 2 messages. "
      "Oracle at every stop: if the follower's cache is labelled with the leader's id, a reader over its whole reported range delivers exactly range-length bytes and every byte equals the leader history's byte function (contiguous, no foreign bytes); a cache under another id must be the untouched pre-state; a follower that holds more than the leader gets ErrLeaderTakeover and keeps its data.",
      [{"pkg": "c16", "test": "TestC16",
-       "quick": {"checks": 64, "shards": 16, "timeout": 900},
+       "quick": {"checks": 320, "shards": 16, "timeout": 900},
        "thorough": {"checks": 3200, "shards": 16, "timeout": 7200}}],
      CACHE_ASSUME + ["google.golang.org/grpc loopback transport", "stub Input reporting the leader's replication ids"], max_inconclusive=1)
+
+CLUSTER_ASSUME = BASE_ASSUME + ["fake/ClusterSet: cluster double whose nodes share one slot table and answer MOVED / ASK / TRYAGAIN / CROSSSLOT per the cluster specification (MIGRATING/IMPORTING, one-shot ASKING kept through MULTI, queue-time and EXEC-time checks), keys per ref/keyspec, slots per ref/hashslot; a node executes a command only where the specification lets it", "log-only execution with one cluster-wide request sequence"]
+
+prop("C19", "Cluster replay reaches each key's slot owner and keeps per-key order", "exploration",
+     "a case = 2-4 node layout with generated slot bounds x per-node reply latency (0 / 0.2 / 1.5 / 5 ms) x batch size 1-50 x {blocking, pipelined} x {ticker-driven (redirections handled), transactional (redirection => reported restart)} x stream of 3-40 writes over 15 pool keys (SET with a unique value; MSET over all pool keys of one slot) x 0-4 migration events (slot of a pool key: MIGRATING/IMPORTING with a generated subset of keys already moved => ASK, finish => MOVED, direct ownership move) fired when the cluster has processed a generated number of requests (between or in the middle of batches). "
+     "non-trivial = distinct case in which a MOVED/ASK reply occurred and the replay touched >= 2 nodes. "
+     "Oracle: the double executes a command only at the node entitled to it, so ownership is by construction; per key the sequence of values that took effect (cluster-wide order) must follow the source order with rewinds only (no write takes effect before its predecessor, none invented); unless Send reported an error every key ends at its last source value (no silent loss); transactional mode: no value takes effect twice within the run.",
+     [{"pkg": "c19", "test": "TestC19",
+       "quick": {"checks": 320, "shards": 16, "timeout": 900},
+       "thorough": {"checks": 12800, "shards": 16, "timeout": 7200}}],
+     CLUSTER_ASSUME, max_inconclusive=1)
